@@ -219,6 +219,7 @@ macro_rules! c16_points {
     };
 }
 c16_points!(c16_q_points, 2, 11);
+#[cfg(feature = "thorough")]
 c16_points!(c16_t_points_7x7, 3, 51);
 
 /// Self-test: the repository's own rectangle expectations, concrete.
